@@ -66,6 +66,8 @@ class Ctx:
         counts = {k: v for k, v in self.mon.counts.items() if not k.startswith("witness:")}
         counts["find_avps"] = self.cov["find_calls"]
         self.cov["monitor_evaluations"] = counts
+        from vf import errinject
+        self.cov["provoked_failures_between_cases"] = dict(errinject.COUNTS)
         return {"evaluations": self.evals, "hashes": sorted(self.hashes), "witnesses": self.wit,
                 "samples": self.samples, "coverage": self.cov}
 
@@ -344,7 +346,10 @@ def random_wire(cx, rng, max_avps=40, maxdepth=6):
 
 
 def run_random(cx, spec, rng):
+    from vf import errinject
+    erng = random.Random(h64("C02-err", spec.get("seed"), spec.get("name")))
     for i in range(spec["n"]):
+        errinject.maybe(erng, 5)       # a failing operation elsewhere must not change what follows
         check_wire(cx, random_wire(cx, rng), rng, sample=(i < 2))
 
 
